@@ -157,6 +157,15 @@ CORPUS["C06"] = [
     M("step size doubled", (CPH, "        self.dL = self.dtype(0.1)  # parin(1) step size km", "        self.dL = self.dtype(0.2)  # parin(1) step size km")),
     M("early exit returns a non-zero density", (CPH, "        if zs[-2] < cloud_top_height:\n            return self.dtype(0), self.dtype(0)", "        if zs[-2] < cloud_top_height:\n            return self.dtype(1e-3), self.dtype(0)")),
     M("expm1 spelled as exp - 1", (CPH, "        DistStep = np.sin(AngE, dtype=self.dtype)", "        DistStep = np.sin(AngE, dtype=self.dtype) + 0 * (np.exp(AngE) - 1.0)")),
+    M("Greisen exponent 1.5 -> 1.4", (CPH, "                t[mask] * (1 - self.dtype(3 / 2) * np.log(s[mask], dtype=self.dtype)),", "                t[mask] * (1 - self.dtype(1.4) * np.log(s[mask], dtype=self.dtype)),")),
+    M("shower age from 2 t instead of 3 t", (CPH, "        s[mask] = self.dtype(3) * t[mask] / (t[mask] + self.dtype(2) * greisen_beta)", "        s[mask] = self.dtype(2) * t[mask] / (t[mask] + self.dtype(2) * greisen_beta)")),
+    M("radiation length 37.15", (CPH, "        t[mask] = gramsum[mask] / self.dtype(36.66)", "        t[mask] = gramsum[mask] / self.dtype(37.15)")),
+    M("track length without the square", (CPH, "        t4 = np.power(1 + self.dtype(1e-4 * s * eCthres), 2, dtype=self.dtype)", "        t4 = np.power(1 + self.dtype(1e-4 * s * eCthres), 1, dtype=self.dtype)")),
+    M("Cherenkov threshold from n instead of n^2", (CPH, "        eCthres = np.reciprocal(np.power(AirN, 2))", "        eCthres = np.reciprocal(np.power(AirN, 1))")),
+    M("distance with cos instead of sin", (CPH, "        DistStep = np.sin(AngE, dtype=self.dtype)\n        DistStep /= np.sin(ThetView, dtype=self.dtype)", "        DistStep = np.cos(AngE, dtype=self.dtype)\n        DistStep /= np.sin(ThetView, dtype=self.dtype)")),
+    M("one array gathered with an older mask", (CPH, "        ThetPrpA = ThetPrpA[mask]\n        AirN = AirN[mask]", "        ThetPrpA = ThetPrpA[zsave <= self.zmax][: mask.sum()]\n        AirN = AirN[mask]")),
+    B("Greisen spelled with 1.5", (CPH, "                t[mask] * (1 - self.dtype(3 / 2) * np.log(s[mask], dtype=self.dtype)),", "                t[mask] * (1 - self.dtype(1.5) * np.log(s[mask], dtype=self.dtype)),")),
+    B("track length with named temporaries", (CPH, "        t2 = np.divide(t1, (E0 + eCthres), dtype=self.dtype)", "        denom = E0 + eCthres\n        t2 = np.divide(t1, denom, dtype=self.dtype)")),
     B("einsum index letters renamed", (CPH, '        uhill = np.einsum("zj,ze->zje", athetaj, poweha, dtype=self.dtype)', '        uhill = np.einsum("sr,se->sre", athetaj, poweha, dtype=self.dtype)')),
     B("clamp as a statement", (CPH, "        betaE = self.dtype(\n            np.radians(self.dtype(1)) if betaE < np.radians(1.0) else betaE\n        )", "        if betaE < np.radians(1.0):\n            betaE = np.radians(self.dtype(1))\n        betaE = self.dtype(betaE)")),
     B("remaining sum with np.flip", (CPH, "        delgram = np.cumsum(delgram_vals[::-1])[::-1]", "        delgram = np.flip(np.cumsum(np.flip(delgram_vals)))")),
